@@ -78,7 +78,7 @@ def plan(tier, seed):
                    "n": nsym, "pk": [0.0, 0.1, 0.3, 0.6][(i >> 3) % 4], "seed": "%d/C17/mixed/%d" % (seed, i)})
     shards += [{"id": "mix%02d" % i, "cls": "mixed", "cases": cs[i::nsh]} for i in range(nsh)]
     # stream
-    ncase, nsh = (56, 16) if q else (1500, 64)
+    ncase, nsh = (56, 16) if q else (1000, 64)
     bp, gp = [], []
     for i in range(ncase):
         bp.append({"kind": "stream", "gaps": False, "nwords": 1 + i % 4, "mid": ["direct", "fifo"][(i >> 2) & 1], "fill": "legal",
